@@ -245,6 +245,11 @@ func (p *planner) planSpl() error {
 		} else if ppl.LineFilter != nil {
 			err = p.planLineFilter(&ppl, i)
 		} else if ppl.Parser != nil {
+			if p.labelsJoinIdx != -1 && p.labelsJoinIdx < i && streamSelector.Pipelines[i-1].Parser == nil {
+				// the parser redefines the `labels` column; label filters already attached to this SELECT must
+				// not see the labels it extracts, so the parser gets a SELECT of its own
+				p.samplesPlanner = &MainRenewPlanner{p.samplesPlanner, true}
+			}
 			err = p.planParser(&ppl)
 		} else if ppl.Unwrap != nil {
 			err = p.planUnwrap(&ppl)
